@@ -8,7 +8,7 @@ import PyGqlModel.Lemmas.ValidateWalkI
 namespace PyGql.Props.C06
 open PyGql PyGql.Validate PyGql.Validate.Spec
 
-theorem enterRules_single' (c : Cfg) (n : Node) (ti : TI) (r : Rule) (rs : RS) :
+theorem enterRules_one (c : Cfg) (n : Node) (ti : TI) (r : Rule) (rs : RS) :
     enterRules c n ti [r] rs = enterRule c.schema c.fixes r n ti rs := by
   simp only [enterRules]
   generalize enterRule c.schema c.fixes r n ti rs = p
@@ -24,9 +24,9 @@ theorem cfi_of (s : SchemaD) (fx : Fixes) (r : Rule) (lvl : Node → Bool) (I : 
       I (leaveRule s fx r n ti rs)) :
     CFI ⟨s, fx, [r]⟩ lvl (fun st => I st.rs) f g where
   inner := hin
-  noskip n st hn hi := by simp only [enter, enterRules_single']; exact (hE n _ _ hn hi).1
-  enterE n st hn hi := by simp only [enter, enterRules_single', E]; exact (hE n _ _ hn hi).2.1
-  enterI n st hn hi := by simp only [enter, enterRules_single']; exact (hE n _ _ hn hi).2.2
+  noskip n st hn hi := by simp only [enter, enterRules_one]; exact (hE n _ _ hn hi).1
+  enterE n st hn hi := by simp only [enter, enterRules_one, E]; exact (hE n _ _ hn hi).2.1
+  enterI n st hn hi := by simp only [enter, enterRules_one]; exact (hE n _ _ hn hi).2.2
   leaveE n st hn hi := by
     simp only [leave, E, List.reverse_cons, List.reverse_nil, List.nil_append, List.foldl_cons, List.foldl_nil]
     exact (hL n _ _ hn hi).1
@@ -47,7 +47,7 @@ theorem document_noskip (s : SchemaD) (fx : Fixes) (r : Rule) (d : Doc) {Inv : S
   unfold visitNode
   have e : enter ⟨s, fx, [r]⟩ (.document d) {} = ({ ti := {}, rs := (enterRule s fx r (.document d) {} {}).1 },
       (enterRule s fx r (.document d) {} {}).2) := by
-    simp only [enter, enterRules_single', tiEnter]
+    simp only [enter, enterRules_one, tiEnter]
   rw [e, hs]
   rfl
 
@@ -59,7 +59,7 @@ theorem document_skip (s : SchemaD) (fx : Fixes) (r : Rule) (d : Doc)
   unfold visitNode
   have e : enter ⟨s, fx, [r]⟩ (.document d) {} = ({ ti := {}, rs := (enterRule s fx r (.document d) {} {}).1 },
       (enterRule s fx r (.document d) {} {}).2) := by
-    simp only [enter, enterRules_single', tiEnter]
+    simp only [enter, enterRules_one, tiEnter]
   rw [e, hs]
   rfl
 
@@ -159,7 +159,7 @@ theorem rule_lone_anonymous_operation_iff (s : SchemaD) (fx : Fixes) (d : Doc) :
     · intro _; rfl
 
 
-theorem total_zero_iff' (f : Node → Nat) (ns : List Node) :
+theorem total_zero_iff_g0 (f : Node → Nat) (ns : List Node) :
     total f (fun _ => 0) ns = 0 ↔ ∀ n ∈ ns, f n = 0 := by
   induction ns with
   | nil => simp [total]
@@ -196,7 +196,7 @@ theorem rule_known_fragment_names_iff (s : SchemaD) (fx : Fixes) (d : Doc) :
   simp only [E] at this
   rw [this]
   have h0 : (enterRule s fx .knownFragmentNames (.document d) {} {}).1.errs.length = 0 := by simp [enterRule]
-  rw [h0, Nat.zero_add, total_zero_iff']
+  rw [h0, Nat.zero_add, total_zero_iff_g0]
   unfold Spec.knownFragmentNames
   simp only [nodes, List.mem_cons, forall_eq_or_imp, reduceCtorEq, false_implies, implies_true, true_and]
   constructor
